@@ -37,4 +37,42 @@ theorem C14_code_board_for_step (s : GameState) (i : Nat) (r : Board)
   simp only [bridge_GameState_piece_board_for_step] at h
   exact (C14_value_of_ok (RsAgree.piece_board_for_step_eq s i) h).2
 
+/-- steps applied one after the other by the regenerated `take_action`, none of which panicked -/
+inductive CodeSteps : GameState → List (Nat × Dir) → GameState → Prop where
+  | nil (s : GameState) : CodeSteps s [] s
+  | cons {s s' t : GameState} {m : Nat × Dir} {ms : List (Nat × Dir)} :
+      GameState_take_action s (.move m.1 m.2) = .ok s' → CodeSteps s' ms t → CodeSteps s (m :: ms) t
+
+theorem C14_code_steps_are_model_steps {s t : GameState} {ms : List (Nat × Dir)} (h : CodeSteps s ms t) :
+    t = s.runMoves ms := by
+  induction h with
+  | nil s => rfl
+  | cons ht _ ih =>
+    simp only [bridge_GameState_take_action] at ht
+    have h2 := (C14_value_of_ok (RsAgree.take_action_eq _ _) ht).2
+    subst h2
+    rw [ih]; rfl
+
+/-- **C14 for the code as it is now**: after `k ≤ 3` steps of a turn applied by the regenerated `take_action`, the
+regenerated `piece_board_for_step i` returns (never panics), for every `i ≤ k`, exactly the board as it stood
+after `i` steps of this turn -/
+theorem C14_code_boards_of_turn (s0 t : GameState) (pp0 : PlayPhase) (hph : s0.phase = .play pp0)
+    (hstart : pp0.step = 0) (ms : List (Nat × Dir)) (hk : ms.length ≤ 3) (hg : CodeSteps s0 ms t)
+    (i : Nat) (hi : i ≤ ms.length) :
+    GameState_piece_board_for_step t i = .ok (s0.stateAfter ms i).board := by
+  have ht := C14_code_steps_are_model_steps hg
+  subst ht
+  obtain ⟨ppk, hpk, hstep, _, hprev, hall⟩ := C14_boards_of_turn s0 pp0 hph hstart ms hk
+  simp only [bridge_GameState_piece_board_for_step, RsAgree.piece_board_for_step_eq]
+  have hp : (s0.runMoves ms).pieceBoardForStepPanics i = false := by
+    unfold pieceBoardForStepPanics
+    rw [hpk]
+    have hlen : ppk.prev.length = ms.length := by rw [hprev]; simp
+    by_cases he : i = ppk.step
+    · simp [he]
+    · have : i < ppk.prev.length := by rw [hlen]; omega
+      have h2 : ¬ i ≥ ppk.prev.length := by omega
+      simp [he, h2]
+  rw [hp, hall i hi]; rfl
+
 end Arimaa
